@@ -69,6 +69,7 @@ def check(run: Run, prog: Program, model: Model, tier: str) -> None:
     _PLAIN["cls"] = model.schemas["IntSchema"].cls
     _alias(run, prog, model)
     _union(run, prog, model)
+    _add_validates(run, prog, model)
     _add(run, prog, model)
     _make_required(run, prog, model)
     _getitem_iter(run, prog, model)
@@ -143,6 +144,7 @@ def _union(run: Run, prog: Program, model: Model) -> None:
         ("a | b", lambda: [plain("A"), plain("B")], ["A", "B"]),
         ("any(a1, a2) | b", lambda: [anyu(plain("A1"), plain("A2")), plain("B")], ["A1", "A2", "B"]),
         ("a | any(b1, b2)", lambda: [plain("A"), anyu(plain("B1"), plain("B2"))], ["A", "B1", "B2"]),
+        ("any(a1, a2) | any(b1, b2)", lambda: [anyu(plain("A1"), plain("A2")), anyu(plain("B1"), plain("B2"))], ["A1", "A2", "B1", "B2"]),
     ]
     for label, mk, want in ucases:
         it = Interp(prog, model, unroll=2, max_depth=12)
@@ -164,7 +166,11 @@ def _union(run: Run, prog: Program, model: Model) -> None:
                 probs.append(f"result is not any(...) with a types tuple: {p.value.key()[:60] if p.value else None}")
                 continue
             missing = [w for w in want if w not in toks]
-            if missing:
+            nested = [t for t in toks if t.startswith("AnySchema<") and "types=" in t]
+            if nested:
+                probs.append(f"a typed union is stored as a MEMBER of the result ({nested[0][:50]}) instead of being flattened: "
+                             "the result differs from schema.any(...) of the same alternatives and from its own repr evaluated")
+            elif missing:
                 probs.append(f"operand alternatives {missing} are missing from the result {toks}")
             good += 1
         if probs:
@@ -175,6 +181,15 @@ def _union(run: Run, prog: Program, model: Model) -> None:
         else:
             run.undecided("UNION-WIRING", label, fn.loc, "no returning path")
     run.floor("UNION-WIRING", 3)
+
+
+def _add_validates(run: Run, prog: Program, model: Model) -> None:
+    """ADD-VALIDATES: `d1 + d2` keeps the relaxed marker where the left operand had it - first or in the middle of the
+    merged table - so `(d1 + d2)` means "d1 and d2" only if the validator's verdict does not depend on WHERE the marker
+    sits (keys after it are still required / type-checked, extra keys still allowed)."""
+    from .c02 import _dict_table
+    for where in ("{...: ..., r1", "r1, ...: ..., optional(o1)"):
+        _dict_table(run, prog, model, "Validator", only=where, rule="ADD-VALIDATES")
 
     # FLATTEN: any(A1, any(B1, B2), A2) and a nested-nested case
     st = model.schemas["AnySchema"]
